@@ -5,13 +5,21 @@ mod core;
 mod model;
 mod registry;
 
+mod c02;
 mod c03;
+mod e2;
+mod store;
 mod c04;
 mod c05;
+mod c07;
 mod c08;
 mod c09;
 mod replicas;
 mod c10;
+mod c12;
+mod c15;
+mod c18;
+mod msgs;
 
 use std::process::exit;
 
@@ -21,12 +29,17 @@ use crate::registry::DynPart;
 fn parts_for(id: &str) -> Option<(&'static str, Vec<Box<dyn DynPart>>, Vec<String>)> {
     let none: Vec<String> = vec![];
     Some(match id {
+        "C02" => ("C02", c02::parts(), none),
         "C03" => ("C03", c03::parts(), none),
         "C04" => ("C04", c04::parts(), none),
         "C05" => ("C05", c05::parts(), none),
+        "C07" => ("C07", c07::parts(), none),
         "C08" => ("C08", c08::parts(), none),
         "C09" => ("C09", c09::parts(), none),
         "C10" => ("C10", c10::parts(), none),
+        "C12" => ("C12", c12::parts(), none),
+        "C15" => ("C15", c15::parts(), none),
+        "C18" => ("C18", c18::parts(), none),
         _ => return None,
     })
 }
